@@ -1,6 +1,7 @@
 package props
 
 import (
+	"math/big"
 	"encoding/hex"
 	"encoding/json"
 	"fmt"
@@ -40,6 +41,30 @@ func c04Chains() []c04Chain {
 	var out []c04Chain
 	l, x := CoverageLegacy(), Coverage2x()
 	out = append(out, c04Chain{"coverage-legacy", l.Era, l.Build}, c04Chain{"coverage-2x", x.Era, x.Build})
+	// a whale and a dust-sized PEG request sharing one bank: the dust request's proportional share floors to 0
+	for _, st := range []int{drive.StBank, drive.StV4} {
+		era := drive.EraStage(st)
+		for _, form := range []string{"separate", "onebatch"} {
+			form := form
+			out = append(out, c04Chain{"bank-whale+dust/" + era.Name + "/" + form, era, func(b *drive.Builder) {
+				g := drive.BlockSpec{Rates: R1(), OPRPayTo: kit.AddrStr(KM)}
+				s := g
+				s.Factoid = []fake.FTx{kit.Burn(KA, 200000e8, BurnRCD(), 5)}
+				b.Add(s)
+				b.Add(g)
+				whale, dust := kit.Conversion(AddrA, "pFCT", 20000e8, "PEG"), kit.Conversion(AddrA, "pFCT", 2, "PEG")
+				s = g
+				if form == "onebatch" {
+					s.TX = []fake.Entry{b.Tx(KA, whale, dust)}
+				} else {
+					s.TX = []fake.Entry{b.Tx(KA, whale), b.Tx(KA, dust)}
+				}
+				b.Add(s)
+				b.Add(drive.BlockSpec{Rates: R2(), OPRPayTo: kit.AddrStr(KM)})
+				b.Add(g)
+			}})
+		}
+	}
 	for _, st := range []int{drive.StPegPrice, drive.StBank, drive.StV4, drive.StV20, drive.StV202, drive.StPIP10} {
 		era := drive.EraStage(st)
 		for _, sb := range c08SemanticBatches(era) {
@@ -251,8 +276,16 @@ func c04Run(c *core.Ctx, r *core.Result, ch c04Chain) {
 								if tr.Outputs != "" {
 									json.Unmarshal([]byte(tr.Outputs), &outs)
 								}
+								refund := int64(0)
 								if len(outs) == 1 {
+									refund = outs[0].Amount
 									exp.add(t.Input.Address, src, outs[0].Amount)
+								}
+								// the request is itself an event that must conserve value: what the input was worth is either
+								// turned into PEG or refunded, up to the rounding of the two divisions (one unit of each asset)
+								if lost, tol, ok := pegRequestLoss(int64(t.Input.Amount), spot[src], tr.ToAmount, refund, spot["PEG"]); ok && (lost.Sign() < 0 || lost.Cmp(tol) > 0) {
+									r.Violate(core.Violation{Key: key, Signature: "C04:peg-request-does-not-conserve-value:" + c04Class(ch.name, era, h),
+										Desc: fmt.Sprintf("chain %s, height %d: a PEG request of %d %s received %d PEG and a refund of %d: value in minus value out = %s rate-units, rounding allows [0, %s]", ch.name, h, t.Input.Amount, src, tr.ToAmount, refund, lost, tol)})
 								}
 							}
 						}
@@ -386,6 +419,19 @@ func c04Run(c *core.Ctx, r *core.Result, ch c04Chain) {
 	if len(r.Samples) < 3 {
 		r.Sample(map[string]interface{}{"chain": ch.name, "blocks": b.Chain.Tip() - era.Base})
 	}
+}
+
+// pegRequestLoss returns input*srcRate - (yield*pegRate + refund*srcRate) and the rounding allowance pegRate+srcRate.
+func pegRequestLoss(in int64, srcRate uint64, yield, refund int64, pegRate uint64) (lost, tol *big.Int, ok bool) {
+	if srcRate == 0 || pegRate == 0 {
+		return nil, nil, false
+	}
+	sr, pr := new(big.Int).SetUint64(srcRate), new(big.Int).SetUint64(pegRate)
+	lost = new(big.Int).Mul(big.NewInt(in), sr)
+	lost.Sub(lost, new(big.Int).Mul(big.NewInt(yield), pr))
+	lost.Sub(lost, new(big.Int).Mul(big.NewInt(refund), sr))
+	tol = new(big.Int).Add(sr, pr)
+	return lost, tol, true
 }
 
 func c04Class(name string, era drive.Era, h uint32) string {
